@@ -189,6 +189,44 @@ def r04e(ctx, run):
               "recorded result, so the code generator compiles it into the binary and its side effects happen again at run time" % (escape, (", line %s" % ln) if ln else ""))
 
 
+def r04f(ctx, run):
+    """a global's constant data is WRITTEN at the type of its initialiser (expr_to_const_data consults the initialiser's own type) and READ at the
+    global's declared type (compile_global loads at tys.sig).  When the checker accepted the initialiser through an implicit conversion - a
+    comptime block of type i32 for a global annotated i64, T for ?T - the two differ.  Necessary: on the way from expr_to_const_data to
+    create_global_data the bytes pass a step that is also given the declared type (a conversion), or the data object is only created under a test
+    that relates the initialiser's type to the declared type."""
+    F = ctx.facts
+    fn = F.fn("codegen::compiler::functions::FunctionCompiler::compile_global_binding_data")
+    U = "codegen::compiler::functions::FunctionCompiler::compile_global_binding_data"
+    mk = [c for c in fn.calls() if short(c.callee) == "create_global_data"]
+    if len(mk) != 1:
+        raise LookupError("create_global_data in compile_global_binding_data: %d" % len(mk))
+    c = mk[0]
+    data = None
+    for a in c.args:
+        ch = fn.chain_operand(a, depth=12)
+        if FA.chain_has_call(ch, "expr_to_const_data"):
+            data = ch
+    if data is None:
+        raise LookupError("the data argument of create_global_data does not come from expr_to_const_data")
+
+    def mentions_declared(ch):
+        return any(n.get("kind") == "call" and short(n["callee"]) in ("sig", "global_sig", "declared_ty") for n in walk_chain(ch))
+    # (a) a conversion on the data path: a call other than expr_to_const_data whose arguments include the declared type
+    conv = [n for n in walk_chain(data) if n.get("kind") == "call" and short(n["callee"]) != "expr_to_const_data" and any(mentions_declared(a) for a in n.get("args", []))]
+    # (b) the creation is guarded by a test relating the two types
+    guard = []
+    for d, ch, sides in fn.conditions_of(c.bb, limit=12):
+        if mentions_declared(ch) and any(n.get("kind") == "call" and short(n["callee"]) in ("index", "expr_ty", "get") for n in walk_chain(ch)):
+            guard.append(d)
+    if conv or guard:
+        run.ok(c.site(), "constant data of a global is converted to / tested against the declared type (%s)" % ("conversion: " + short(conv[0]["callee"]) if conv else "guard at bb%d" % guard[0]))
+    else:
+        run.finding(U, "const-data-at-initialiser-type", c.file, c.ln,
+                    "the data object of a global is created from expr_to_const_data's bytes (written at the initialiser's own type) without any step that is given the declared "
+                    "type, and is later loaded at the declared type: `m : i64 : comptime { x : i32 = 7; x }` stores 4 bytes and reads 8 (garbage); `k : ?i32 : 5` reads nil")
+
+
 BITS = {"I8": 8, "I16": 16, "I32": 32, "I64": 64, "I128": 128, "F32": 32, "F64": 64}
 RBITS = {"u8": 8, "u16": 16, "u32": 32, "u64": 64, "u128": 128, "f32": 32, "f64": 64, "i8": 8, "i16": 16, "i32": 32, "i64": 64, "i128": 128}
 
@@ -318,6 +356,7 @@ def rules(ctx):
         Rule("R04.a", "address-bearing comptime results are rejected or relocated (top level and through aggregate members)", 16, r04a),
         Rule("R04.b", "all comptime blocks are evaluated before code generation, which receives those results and never recompiles an evaluated block", 9, r04b),
         Rule("R04.e", "every comptime block the JIT runs gets a recorded result (must-pass-through results.insert in the evaluation loop)", 1, r04e),
+        Rule("R04.f", "a global's constant data is converted to (or tested against) the declared type it is read at", 1, r04f),
         Rule("R04.d", "a comptime expression and its body are recorded at the same type (inference and weak-type replacement)", 2, r04d),
         Rule("R04.c", "capture table: read-back type width = Cranelift type width; serialisation at the recorded width", 20, r04c),
     ]
